@@ -4,14 +4,21 @@
   run until they block (`WSys.settle`), mirroring `synctest.Wait()` in the harness.
 -/
 import Cosi.Model.Watch
+import Cosi.Model.Bookmark
 import Cosi.Driver.Store
 
 namespace Cosi.Driver.Watch
 open Cosi Cosi.Driver.Store
 
+/-- bookmarks are printed as the bytes the code produces (cookie → placeholder) -/
 def bmStr : Option Int → String
   | none => "-"
-  | some p => toString p
+  | some p => bytesToHex (encodeBookmark placeholderCookie p)
+
+/-- bookmark bytes from an op line → what `decodeBookmark` sees -/
+def parseBm (hex : String) : BookmarkArg :=
+  let bs := (hexToBytes hex).getD []
+  { len := bs.length, cookieOk := bs.take 8 == placeholderCookie, pos := toI64 (fromBe64 (bs.drop 8)) }
 
 def evStr (e : Event) : String :=
   match e.typ with
@@ -48,8 +55,7 @@ def stepLine (s : WSys) (op : String) (a : List (String × String)) : WSys × St
       | "agg" => .agg
       | _ => .kind
     let bm : Option BookmarkArg :=
-      if hasArg a "bmlen" then some { len := argNat a "bmlen", cookieOk := arg a "cookie" == "1", pos := argInt a "pos" }
-      else none
+      if hasArg a "bm" then some (parseBm (arg a "bm")) else none
     let o : StartOpts := { bootstrap := arg a "boot" == "1", bootstrapBookmark := arg a "bb" == "1",
                            tail := argNat a "tail", bookmark := bm }
     let (s', e) := s.startWatch (argNat a "w") (arg a "ns") (arg a "typ") kind (parseSel (arg a "sel")) (argNat a "buf") o
